@@ -72,9 +72,9 @@ NumViol(F)       == Card({v \in F.V : ~v.suppressed /\ ~v.warning})  \* file.num
 UnfTmpPrs(F)     == Card({v \in F.V : v.kind \in TmpPrs})           \* filter_ignore=False, filter_warning=False
 FiltTmpPrs(F)    == Card({v \in F.V : v.kind \in TmpPrs /\ ~v.suppressed /\ ~v.warning})
 UnfixAtAdd(F)    == Card({v \in F.V : v.kind = "LINT" /\ ~HasFixes(F, v) /\ ~v.suppressed /\ ~v.warning})
-\* discard_fixes_...: every *record* violation that carries fixes bumps num_unfixable_lint_errors —
-\* records keep warnings (F10)
-DiscardInc(F)    == IF UnfTmpPrs(F) > 0 THEN Card({v \in RecViols(F) : HasFixes(F, v)}) ELSE 0
+\* discard_fixes_...: every *record* violation that carries fixes and is not a warning bumps
+\* num_unfixable_lint_errors (records keep warnings; counting them was F10, repaired in 9356db3)
+DiscardInc(F)    == IF UnfTmpPrs(F) > 0 THEN Card({v \in RecViols(F) : HasFixes(F, v) /\ ~v.warning}) ELSE 0
 
 \* what reaches LintedDir.add: byte-limit skips never do (iter_rendered catches SQLFluffSkipFile and counts);
 \* a char-limit skip is swallowed inside render_string: the file is added with no violations and is NOT counted (F11)
@@ -104,9 +104,10 @@ AStdinFixExit(R) == LET F == AFile(R.files[1])
 AStdinModified(R) == LET F == AFile(R.files[1])
                      IN /\ ~F.notree /\ (R.feu \/ UnfTmpPrs(F) = 0)
                         /\ \E v \in F.V : HasFixes(F, v) /\ ~v.suppressed /\ ~v.warning   \* num_violations(fixable=True) filters warnings
-\* api.simple.fix: gate on the FILTERED count (F3); fix_string asserts a tree
-AApiGate(R)      == R.feu \/ FiltTmpPrs(AFile(R.files[1])) = 0
-AApiRaises(R)    == AApiGate(R) /\ (R.files[1].notree \/ R.files[1].skipped)
+\* api.simple.fix: gate on the UNFILTERED count and on tree / templated_file being present
+\* (the filtered count and the unguarded fix_string() were F3, repaired in 254ee69)
+AApiGate(R)      == R.feu \/ UnfTmpPrs(AFile(R.files[1])) = 0
+AApiRaises(R)    == FALSE
 AApiModified(R)  == LET F == AFile(R.files[1])
                     IN AApiGate(R) /\ ~F.notree /\ ~F.skipped /\ \E v \in F.V : HasFixes(F, v) /\ ~(v.suppressed /\ v.viaNoqa)
 
@@ -242,9 +243,10 @@ Ambiguous(s) == \E i \in 1..Len(s.files) : s.files[i].err = "tmp_soft" /\ s.file
 Readings(s)  == IF Ambiguous(s) THEN {TRUE, FALSE} ELSE {TRUE}
 \* the code's own reading: the templater never raises the error under ignore = templating
 AlgoRun(s)   == RunOf(s, FALSE)
-\* Linter.lint_string builds the rule pack from the config as it was BEFORE the file's `-- sqlfluff:` lines were
-\* applied (F2): through stdin / sqlfluff.lint / sqlfluff.fix an inline rule selection is ignored, the root one is used
-InlineRulesIgnored(s) == s.cfgsrc = "inline" /\ s.cfgitem \in {"rules", "all"} /\ s.cmd # "format"
+\* Linter.lint_string used to build the rule pack from the config as it was BEFORE the file's `-- sqlfluff:` lines
+\* were applied (F2: inline rule selection ignored through stdin / sqlfluff.lint / sqlfluff.fix); repaired in affb347,
+\* it now uses parsed.config like the path pipeline.  The hook stays so that the quirk can be modelled again.
+InlineRulesIgnored(s) == FALSE
 AlgoStrRun(s) == IF ~InlineRulesIgnored(s) THEN AlgoRun(s)
                  ELSE [AlgoRun(s) EXCEPT !.files = [i \in DOMAIN @ |-> [@[i] EXCEPT !.V = {v \in @ : v.kind # "LINT"}]]]
 
@@ -295,9 +297,9 @@ ContractSane ==
          IN ExitSet(NoW) = ExitSet(R)
 AlgoRefinesContract == ScDiff(sc) = {}
 \* the same, clause by clause, so that each known defect falls out as its own counterexample
-PathCountersRefineExit == "C22.Exit.path" \notin ScDiff(sc)            \* F10 (and F11 with a char limit; unknown dialect in a config file)
+PathCountersRefineExit == "C22.Exit.path" \notin ScDiff(sc)            \* was F10; still: F11 with a char limit, unknown dialect in a config file
 StdinFlagsRefineExit   == "C22.Exit.stdin" \notin ScDiff(sc)           \* F23
-ApiGateRefinesBlocked  == "C18.Modified.api" \notin ScDiff(sc)         \* F3
+ApiGateRefinesBlocked  == "C18.Modified.api" \notin ScDiff(sc)         \* was F3: holds since 254ee69
 SkipsAreCounted        == "C34.SkippedCounted" \notin ScDiff(sc)       \* F11
-EntryPointsAgree       == ScDiff(sc) \cap {"C19.ExitAgree", "C19.ViolationsAgree", "C19.FixedTextAgree", "C19.ApiRaises"} = {}   \* F2, F23, F3
+EntryPointsAgree       == ScDiff(sc) \cap {"C19.ExitAgree", "C19.ViolationsAgree", "C19.FixedTextAgree", "C19.ApiRaises"} = {}   \* F23, stdin warning-only fixes
 ===============================================================================
